@@ -55,7 +55,7 @@ def cases(ctx):
                 r["override"] = None
         yield {"runs": runs, "no_args": no_args, "engine": rng.choice(["pickle", "pickle", "csv"]), "kind": rng.choice(["float", "multi:s,s", "int", "str"]),
                "constants": rng.choice([{}, {"kc": 3}, {"kc": "zz", "k2": 1.5}]), "mem_only": rng.random() < 0.1,
-               "default_kind": rng.choice(["lists", "mixed"])}
+               "default_kind": rng.choice(["lists", "mixed"]), "x_dates": rng.random() < 0.3}
 
 
 class LoggingGen(object):
@@ -88,6 +88,11 @@ def run_case(ctx, case):
         constants = dict(constants, kfix=2)
         ctx.count("samplers_without_sampled_arguments")
     POOLS = {"a": [1, 2, 3, 5, 8], "b": ["u", "v", "w"], "x": [0.25, 1.5, -2.75, 10.125]}
+    if case.get("x_dates") and engine == "pickle":
+        # choices that are nanosecond-resolution dates (a time axis taken from a dataset): rows must hold those dates
+        POOLS["x"] = list(np.array(["2021-03-05", "2021-03-06T12:00:00.000000001", "1999-12-31T23:59:59", "2030-01-01"],
+                                   dtype="datetime64[ns]"))
+        ctx.count("samplers_with_date_choices")
     logfile = os.path.join(tmp, "calls.log")
     fn = probe.Probe(kind, logfile=logfile, name="sprobe")
     sig = {"api": "sampler", "engine": engine, "kind": kind.split(":")[0]}
